@@ -27,6 +27,9 @@ CLAIMED["C09"] = ("exploration", "exhaustive enumeration of all small multigraph
 CLAIMED["C06"] = ("exploration", "fully crossed enumeration of a tank family (shape x init x tank-link kind x second link x demand pattern x step x leak), every run on WNTRSimulator with 'ALL' reporting; volume-integration and limit invariants on every pair of consecutive solved steps",
     "every configuration of the crossed alphabets is simulated; the volume identity is exact arithmetic on reported numbers (own cylinder / piecewise-linear curve reference), limits use the 2 s of flow the statement allows",
     "min-level clauses are not applied to a tank with an active leak (a leak is not a link; counted skips)")
+CLAIMED["C07"] = ("exploration", "exhaustive crossing of (Pmin,Preq) x exponent x demand x override mode; dense pressure sweep of the compiled pdd residual (model seam) plus PDD simulations in every pressure regime (system seam)",
+    "every parameter combination of the alphabets is built with create_hydraulic_model and its compiled pdd residual is swept over a 448-point pressure grid incl. points at both sides of all four branch edges; values, monotonicity, continuity and locality of overrides are judged against the documented curve",
+    "values between grid points and parameters outside the alphabets are not covered; 1e-7 noise allowance (rounding of the smoothing cubics)")
 NOT_YET = "check not built yet in this session (work in progress, see DESIGN.md section 4)"
 
 
